@@ -11,8 +11,10 @@ def _inputs(rng, nac=False):
     np_ = int(rng.integers(1, 3))
     ncell = int(rng.integers(1, 4))
     ns = np_ * ncell
-    p2s = np.arange(np_, dtype="int64") * ncell
-    s2p = np.repeat(p2s, ncell)
+    # supercell atoms in arbitrary (interleaved) order: atom k is an image of primitive atom s2pp[k]
+    s2pp = rng.permutation(np.repeat(np.arange(np_, dtype="int64"), ncell))
+    p2s = np.array([int(np.where(s2pp == j)[0][0]) for j in range(np_)], dtype="int64")
+    s2p = p2s[s2pp]
     multi = np.zeros((ns, np_, 2), dtype="int64")
     rows = []
     for k in range(ns):
@@ -26,7 +28,7 @@ def _inputs(rng, nac=False):
     fc = rng.normal(size=(ns, ns, 3, 3))
     mass = rng.uniform(1.0, 5.0, size=np_)
     q = rng.uniform(-0.5, 0.5, size=3)
-    return dict(np_=np_, ns=ns, p2s=p2s, s2p=s2p, multi=multi, svecs=svecs, fc=fc, mass=mass, q=q)
+    return dict(np_=np_, ns=ns, p2s=p2s, s2p=s2p, s2pp=s2pp, multi=multi, svecs=svecs, fc=fc, mass=mass, q=q)
 
 
 def dspec(d, q=None, charge_sum=None):
@@ -124,7 +126,7 @@ def replay_d2f(trials=40, seed=0):
         N = ns // np_
         comm = rng.uniform(-0.5, 0.5, size=(N, 3))
         dm = rng.normal(size=(N, 3 * np_, 3 * np_, 2))
-        s2pp = np.repeat(np.arange(np_, dtype="int64"), N)
+        s2pp = d["s2pp"]
         for full in (True, False):
             nrow = ns if full else np_
             idx = d["p2s"].copy() if full else np.arange(np_, dtype="int64")
